@@ -95,6 +95,21 @@ def heap_discipline(ctx, db):
         c = [e for e in f.events() if e.k == 'cmp' and e.get('op') in ('<', '>', '<=', '>=')]
         ok = len(c) == 1 and ((c[0]['op'] == '>' and (c[0].get('lhs'), c[0].get('rhs')) == (a, b)) or
                               (c[0]['op'] == '<' and (c[0].get('lhs'), c[0].get('rhs')) == (b, a)))
+        if not ok:
+            # any other spelling of the same order (negated <=, a helper that compares): judge the expression returned on every path
+            trs_ = [t for t in htracer(db).traces(f) if live(t)]
+            ok = bool(trs_)
+            for tr in trs_:
+                r_ = next((it for it in reversed(tr) if it.k == 'return' and it.get('depth', 0) == 0), None)
+                e_ = origin_in_trace(tr, pos(tr, r_), r_.get('path'))[0] if r_ is not None and r_.get('path') else None
+                neg = False
+                while e_ and e_.startswith('!(') and e_.endswith(')'):
+                    e_ = e_[2:-1]; neg = not neg
+                sc = split_cmp(e_ if (e_ or '').startswith('(') else '(%s)' % (e_ or ''))
+                if not sc:
+                    ok = False; break
+                op_ = {'<': '>=', '<=': '>', '>': '<=', '>=': '<'}.get(sc[1]) if neg else sc[1]
+                ok = ok and ((op_ == '>' and (sc[0], sc[2]) == (a, b)) or (op_ == '<' and (sc[0], sc[2]) == (b, a)))
         ctx.ob(rid, f, f['key'], ok, 'compare_item orders by a._tp > b._tp (min-heap on the time point)', desc='comparator is not a._tp > b._tp')
 
 
@@ -513,11 +528,11 @@ def sleep_through_heap(ctx, db):
     rid = ctx.rule('C12.sleep-through-heap', 'PATHS', 'scheduler::sleep_until: on every path the returned future is built from a closure that hands its promise to schedule() exactly once; no path '
                    'answers with an already resolved future (sleepers complete in time-point order only if every one of them passes through the heap)', floor=1)
     T = htracer(db)
-    for f in db.need('cocls::scheduler::sleep_until')[:1]:
+    def enters_heap(f, fname):
         trs = [t for t in T.traces(f) if live(t)]
         ctx.paths(rid, len(trs))
         bad = None
-        lams = [lf for lf in lambdas_of(db, 'cocls::scheduler::sleep_until')]
+        lams = [lf for lf in lambdas_of(db, fname)]
         sched = {lf['key'] for lf in lams if all(sum(1 for c in calls(t) if norm(c.get('callee')) == 'cocls::scheduler::schedule') == 1 for t in T.traces(lf) if live(t)) and any(live(t) for t in T.traces(lf))}
         for tr in trs:
             made = [it for it in tr if it.k == 'lambda' and it.get('fn_key') in sched]
@@ -526,10 +541,17 @@ def sleep_through_heap(ctx, db):
                 bad = bad or ('a path answers with an already resolved future (%s): that sleep bypasses the heap and overtakes earlier, overdue sleepers' % norm(direct[0].get('callee')).split('::')[-1], tr)
             elif len(made) != 1:
                 bad = bad or ('a path does not build the future from a closure that schedules its promise exactly once', tr)
+        return bad, trs
+    for f in db.need('cocls::scheduler::sleep_until')[:1]:
+        bad, trs = enters_heap(f, 'cocls::scheduler::sleep_until')
         ctx.ob(rid, f, f['key'], bad is None and bool(trs), 'every sleep enters the heap' + ('' if not bad else ' -- ' + bad[0]), desc=bad[0] if bad else None, trace=fmt_trace(bad[1]) if bad else None)
     for f in db.need('cocls::scheduler::sleep_for')[:1]:
         trs = [t for t in T.traces(f) if live(t)]
         ok = bool(trs) and all(sum(1 for c in calls(t) if norm(c.get('callee')) == 'cocls::scheduler::sleep_until' and c.get('depth', 0) == 0) == 1 for t in trs)
+        if not ok and trs and not any(norm(c.get('callee')) == 'cocls::scheduler::sleep_until' for t in trs for c in calls(t)):
+            # sleep_until written out in place: the same obligation applies to sleep_for itself
+            bad, trs = enters_heap(f, 'cocls::scheduler::sleep_for')
+            ok = bad is None and bool(trs)
         ctx.ob(rid, f, f['key'], ok, 'sleep_for is sleep_until(now + duration)', desc='sleep_for does not go through sleep_until exactly once')
 
 
